@@ -469,6 +469,10 @@ class _BytesBase:
 
     def decode(self, encoding="utf-8", errors="strict"):
         enc = encoding.lower().replace("_", "-")
+        if enc in ("ascii", "us-ascii", "latin-1", "latin1", "iso-8859-1"):
+            from .text import single_byte_decode
+
+            return single_byte_decode(list(self._items()), enc.startswith(("ascii", "us-")), errors)
         if enc not in ("utf-8", "utf8"):
             raise Unsupported(f"decode({encoding!r})")
         from .text import utf8_decode
